@@ -349,13 +349,12 @@ def run(rep, tier, seed):
                       {"sets": sets, "bits": {k: env[k] for k in FLAGS}}, found_input=False)
     common.proof_coverage(rep, PID, audit, tier,
                           "the extension gates of the pull parser (Model/Parser.v: step.rs, quantity.rs, mod.rs) and of "
-                          "the analysis pass (Model/Analysis.v: in_step, metadata, timer). Proved over the models: the "
-                          "event stream of a whole document is the same for any two extension words when every block "
-                          "is block_ok (C02_events_invariant), the collector gives the same result for any two "
-                          "extension records on a quiet stream (C02_analyse_invariant), and both together "
-                          "(C02_pipeline_invariant_partial). Not proved, monitored on the implementation only: that "
-                          "core_doc alone makes metadata/ingredient events quiet (C02_full_statement), the absence of "
-                          "errors on well-formed core recipes, and the converse readings at document level")
+                          "the analysis pass (Model/Analysis.v: in_step, metadata, timer). Proved over the models: "
+                          "C02_full (for every source whose blocks are all block_ok, any two of the 192 sets give the same "
+                          "event stream and the same analysis result, given only the converter-dependent hypothesis "
+                          "oracle_quiet); the converse readings for COMPONENT_ALIAS and RANGE_VALUES for any source. "
+                          "Not proved, monitored on the implementation only: the absence of errors on well-formed core "
+                          "recipes and the converse readings of the other six families at document level")
     distinct = set(t for t, _, _ in core_ok) | set(fam_inputs) | set(s for s in strings if any(c in s for c in "@~>="))
     rep.coverage.update({
         "evaluations": parses + lev_cases,
